@@ -124,6 +124,30 @@ func C02(c *fw.Ctx) {
 			}
 		}
 	}
+	// the same matrix with one or both operands held in variables (a literal beside a variable, a variable
+	// beside a literal, two variables)
+	for _, op := range model.BinOps {
+		for _, x := range ops {
+			for _, y := range ops {
+				if !c.Mine() {
+					continue
+				}
+				for form := 0; form < 3; form++ {
+					prog := append(c02Prelude(), model.Var("VX", x.Mk()), model.Var("VY", y.Mk()))
+					var e *model.N
+					switch form {
+					case 0:
+						e = model.Bin(op, x.Mk(), model.Id("VY"))
+					case 1:
+						e = model.Bin(op, model.Id("VX"), y.Mk())
+					case 2:
+						e = model.Bin(op, model.Id("VX"), model.Id("VY"))
+					}
+					judge(c, append(prog, model.Print(e)), judgeOpts{SigPrefix: fmt.Sprintf("op%s|variable-operands%d|%s|%s", op, form, kindLabel(x.Name), kindLabel(y.Name)), NoKind: true, NoOneLine: true, NoPrompt: true, NoTwice: true})
+				}
+			}
+		}
+	}
 	// rows and columns: every non-failing result of one operator with one fixed operand, all in a
 	// single run, in both orders of the other operand -- a result computed earlier in a run must not
 	// change a later one; likewise every operator on one pair in a single run
